@@ -3,3 +3,5 @@ package wl
 import "github.com/xelaj/mtproto/zverif/core"
 
 func coreInconclusive(s string) core.Event { return core.Event{Ev: "inconclusive", Detail: s} }
+
+func core64(s string) uint64 { return core.Hash64(s) }
